@@ -8,6 +8,7 @@ params:
   threads     list, one entry per input: number t of the completer thread comp<t> that resolves it
   fails       list of input indices that fail (with their own exception) instead of succeeding
   fn_fails    the function itself raises
+  base_exc    the failing inputs fail with an exception deriving from BaseException only
   kwnames     names of the keyword arguments (default k1, k2); any identifiers f_apply can be given
 
 Events: Cfg, InputSet, FnCalled, FnRaise, Result, End (see spec/ApplyObs.tla).  Ids are assigned by object
@@ -44,6 +45,10 @@ class ApplyErr(Exception):
     pass
 
 
+class ApplyBaseErr(BaseException):
+    """An input failure deriving from BaseException only (e.g. what a pool records for a task calling sys.exit())."""
+
+
 def build(p):
     npos, nkw = p["npos"], p["nkw"]
     n = npos + nkw
@@ -57,7 +62,7 @@ def build(p):
         from concurrent.futures import Future
         from more_executors.futures import f_apply
         vals = [Val(i) for i in range(n + 1)]
-        excs = [ApplyErr("input %d" % i) for i in range(n + 1)]
+        excs = [(ApplyBaseErr if p.get("base_exc") else ApplyErr)("input %d" % i) for i in range(n + 1)]
         fnexc = ApplyErr("fn")
         val_ids = {id(v): 200 + i for i, v in enumerate(vals)}
         exc_ids = {id(e): 300 + i for i, e in enumerate(excs)}
@@ -102,7 +107,14 @@ def build(p):
             if 0 <= i <= n:
                 from more_executors.futures import f_proxy
                 given[i] = f_proxy(futs[i])      # the input is handed over as an f_proxy of the real future
-        out = f_apply(given[0], *given[1:npos + 1], **{kwnames[j]: given[npos + 1 + j] for j in range(nkw)})
+        try:
+            out = f_apply(given[0], *given[1:npos + 1], **{kwnames[j]: given[npos + 1 + j] for j in range(nkw)})
+        except E.SchedAbort:
+            raise
+        except BaseException as ex:       # f_apply itself raised: no future to look at
+            E.emit("Result", s="RAISED", a=1, b=exc_ids.get(id(ex), UNKNOWN))
+            E.emit("End")
+            return
         E.SCHED.track(0, out)
 
         def completer(t):
